@@ -55,7 +55,34 @@ def main(argv=None) -> int:
         i, n = (int(x) for x in args.shard.split("/"))
         ctx = core.Ctx(prop, args.tier, args.seed, i, n)
         _arm_watchdog(mod, args.tier)
-        mod.run(ctx)
+        if os.environ.get("HV_RUN_IN_THREAD"):
+            # the whole workload in a thread that did not import the library (the main thread only waits)
+            import threading
+
+            box = []
+
+            def work():
+                try:
+                    mod.run(ctx)
+                except BaseException as e:  # noqa: BLE001
+                    box.append(e)
+
+            th = threading.Thread(target=work, name="hv-worker")
+            th.start()
+            th.join()
+            if box and os.environ.get("HV_OPT_CHILD") and isinstance(box[0], Exception):
+                _alt_exception(ctx, box[0])
+            elif box:
+                raise box[0]
+        elif os.environ.get("HV_OPT_CHILD"):
+            try:
+                mod.run(ctx)
+            except (core.Inconclusive, _Watchdog):
+                raise
+            except Exception as e:
+                _alt_exception(ctx, e)
+        else:
+            mod.run(ctx)
         with open(args.partial, "w") as f:
             json.dump(ctx.to_partial(), f)
         return 0
@@ -113,6 +140,14 @@ def main(argv=None) -> int:
 
 class _Watchdog(Exception):
     pass
+
+
+def _alt_exception(ctx, e):
+    """In an alternative interpreter configuration the workload of a check - which runs to its end in the default configuration -
+    was cut short by an exception: something the property promises does not survive the configuration."""
+    tb = traceback.format_exception(type(e), e, e.__traceback__)
+    ctx.violation("raises-in-alternative-configuration", "the workload raised %r (it does not in the default configuration)" % (e,),
+                  {"traceback_tail": "".join(tb)[-1500:]})
 
 
 def _arm_watchdog(mod, tier):
